@@ -603,7 +603,7 @@ func checkRelational(c *core.Ctx, r *core.Rand, conc, abs cty.Value, Tn *m.TNode
 }
 
 func (Driver) Run(c *core.Ctx) {
-	n := int64(c.N(10000, 270000)) // x16 = 160 k cases (240 k pairs) quick, x64 = 5.8 M cases thorough
+	n := int64(c.N(50000, 270000)) // x16 = 160 k cases (240 k pairs) quick, x64 = 5.8 M cases thorough
 	for i := int64(0); i < n; i++ {
 		if !c.Want(i) {
 			continue
